@@ -166,17 +166,24 @@ Definition d_value (target : N) (d : dump) (a p : N) : N :=
 Definition live_orphan (target : N) (d : dump) : bool :=
   existsb (fun r => negb (is_some (x_mined r)) && sp_unexpired target r) (d_txs d).
 
-Definition chk_bal (S : list block) (d : dump) : bool :=
+(** total + uneconomic = value of the notes of the dump that count, each once *)
+Definition chk_rule (d : dump) : bool :=
   match d_bal d, d_tip d with
-  | Some l, Some tip =>
-      forallb (fun e => let '(a, p, tot, un) := e in
-        (* total + uneconomic = value of the notes that count, each once *)
-        N.eqb (tot + un) (d_value (tip + 1) d a p)
-        (* and, when no orphaned transaction is still alive, exactly the ledger *)
-        && (live_orphan (tip + 1) d || N.eqb (tot + un) (ledger S a p))) l
+  | Some l, Some tip => forallb (fun e => let '(a, p, tot, un) := e in N.eqb (tot + un) (d_value (tip + 1) d a p)) l
   | Some _, None => false
   | None, _ => true
   end.
+
+(** and, when no orphaned transaction is still alive, exactly the ledger of the scanned blocks *)
+Definition chk_ledger (S : list block) (d : dump) : bool :=
+  match d_bal d, d_tip d with
+  | Some l, Some tip =>
+      forallb (fun e => let '(a, p, tot, un) := e in live_orphan (tip + 1) d || N.eqb (tot + un) (ledger S a p)) l
+  | Some _, None => false
+  | None, _ => true
+  end.
+
+Definition chk_bal (S : list block) (d : dump) : bool := chk_rule d && chk_ledger S d.
 
 Definition chk_tip (S : list block) (d : dump) : bool :=
   match d_tip d with
